@@ -211,6 +211,27 @@ def check(ctx: Ctx) -> None:
     from .C05 import check_kill_on_timeout
     check_kill_on_timeout(ctx, "C16.h")
     check_socket_halfclose(ctx, "C16.i")
+    with ctx.obligation("C16.k", "socket-blocking") as ob:
+        # a pipe blocks until data arrives, however long the pause: the socket the transport reads from must not carry a timeout
+        # (a connect timeout set on it has to be reset before the gateway uses it)
+        from ..terms import NONE as _Nk, evaluator as _evk
+        fcio = ctx.repo.func("gateway_socket.create_io")
+        nret = 0
+        for (pth, st_) in _evk(ctx.repo, fcio).run(limit=4000):
+            if pth[-1][0] != _evk(ctx.repo, fcio).cfg.exit.id and st_.ret is None:
+                continue
+            if st_.ret is None:
+                continue
+            nret += 1
+            tos = [e for e in st_.events if e.kind == "call" and e.attr in ("settimeout", "setblocking") and e.args]
+            if tos:
+                last = tos[-1]
+                blocking = (last.attr == "settimeout" and last.args[0] == _Nk) or (last.attr == "setblocking" and last.args[0] == ("const", True))
+                if not blocking:
+                    ob.violation(fcio, last.node, "the socket given to SocketIO keeps a timeout: after that long without traffic recv() raises in the receiver thread and the "
+                                                  "gateway is torn down, where a pipe transport just waits", construct="socket timeout stays set")
+        ob.site(fcio, fcio.node, "create_io returns a SocketIO on a socket without timeout", returning_paths=nret)
+        ob.require(nret >= 1, "gateway_socket.create_io: no returning path")
     with ctx.obligation("C16.j", "empty-read-is-eof") as ob:
         # the proxied transport signals its end by an empty read, the others by raising: both must end in EOFError at the framing layer
         from .C08 import check_empty_header_eof
